@@ -69,7 +69,11 @@ def gen(rng, ctx):
             cd["edges"].append([f, n])
         drivers.append(n)
         dead.append(n)
-    return {"c": cd, "inputs": flag, "kind": kind, "via": rng.choice(["graph", "api"])}
+    order = "topological"
+    if rng.random() < 0.4:
+        cd = G.shuffle_nodes(rng, cd)
+        order = "shuffled"
+    return {"c": cd, "inputs": flag, "kind": kind, "via": rng.choice(["graph", "api"]), "order": order}
 
 
 def check(case, ctx):
@@ -80,6 +84,7 @@ def check(case, ctx):
     before = Net.of(c)
     ctx.count(f"class:{case['kind']}")
     ctx.count(f"inputs={flag}")
+    ctx.count(f"insertion_order:{case.get('order')}")
     roots = set(before.outputs) | {n for n, t in before.types.items() if t == "bb_input"}
     live = reach(before.preds, roots) | roots
     dead = set(before.types) - live
@@ -150,5 +155,5 @@ def check(case, ctx):
 
 
 def gates(counters, table, tier):
-    need = ["class:pins", "class:plain", "inputs=True", "inputs=False", "has_dead_logic", "has_unloaded_input", "has_input_loaded_only_by_dead_logic", "has_dead_bb_output"]
+    need = ["insertion_order:shuffled", "class:pins", "class:plain", "inputs=True", "inputs=False", "has_dead_logic", "has_unloaded_input", "has_input_loaded_only_by_dead_logic", "has_dead_bb_output"]
     return [f"{k} seen {counters.get(k, 0)} times" for k in need if counters.get(k, 0) < 10]
